@@ -288,6 +288,19 @@ func c05R6(c *Ctx, r *Report, rule string) {
 				// does the result reach a store (atomic Store or plain)?
 				used[e] = true
 			}
+			// the conversion in a helper of the package that is given the deadline (storeDeadline(t))
+			if g := ci.Common().StaticCallee(); g != nil && g.Pkg == fn.Pkg && len(g.Blocks) > 0 {
+				for k, a := range ci.Common().Args {
+					if a != ssa.Value(t) || k >= len(g.Params) {
+						continue
+					}
+					for _, cj := range callsIn(g) {
+						if e, ok := enc[calleeID(cj)]; ok && len(cj.Common().Args) > 0 && cj.Common().Args[0] == ssa.Value(g.Params[k]) {
+							used[e] = true
+						}
+					}
+				}
+			}
 		}
 		if len(used) == 0 {
 			r.ok(rule, name, "encoding", c.pos(fn.Pos()), "the deadline is not converted to an integer")
